@@ -509,6 +509,61 @@ func c13Scenario(c *Ctx, idx int, r *Rng, extra func(l, m, cs string)) (mline, m
 			}
 		}
 	}
+	// ---- the scan behind the object check (model FsScan): for one commit's tree, in walk order, which
+	// pointer blobs does fsck look at?  Observable on the damaged ones: named or not
+	if objectsOn && revMode != "range" && exclude != "" && !nested {
+		walk := []string{"a.bin", "b.bin", "d.dat", "deep/dir/g.bin", "dir/c.bin", "dir/e.dat", "f.bin"}
+		blobIDs := map[string]int{}
+		var ents []string
+		oidOfBlob := map[int]string{}
+		for k, nme := range walk {
+			f := history[checkedCommits[0]][nme]
+			if f == nil || f.kind == "raw" || f.oid == "" {
+				continue
+			}
+			key := string(f.blob)
+			if _, ok := blobIDs[key]; !ok {
+				blobIDs[key] = len(blobIDs) + 1
+			}
+			oidOfBlob[blobIDs[key]] = f.oid
+			ex := "0"
+			if c05Excluded(exclude, nme) {
+				ex = "1"
+			}
+			ents = append(ents, fmt.Sprintf("%d:%d:%s", k+1, blobIDs[key], ex))
+		}
+		stagedOid := ""
+		if revMode == "none" && staged != nil {
+			stagedOid = staged.oid // the index scan is separate and has its own name for the blob
+		}
+		if len(ents) > 0 {
+			if ans, err := c.Or.Ask([]string{"C13 scan " + strings.Join(ents, ",")}); err == nil {
+				scannedOids := map[string]bool{}
+				if ans[0] != "-" {
+					for _, t := range strings.Split(ans[0], ",") {
+						var n int
+						fmt.Sscan(t, &n)
+						scannedOids[oidOfBlob[n]] = true
+					}
+				}
+				for _, o := range oidOfBlob {
+					if o == stagedOid {
+						continue
+					}
+					bad := objState[o] == "corrupt" || (objState[o] == "missing" && len(allOids[o]) > 0)
+					if !bad {
+						continue
+					}
+					// an oid may be named by a second, different pointer blob (non-canonical spelling): scanned if any is
+					if scannedOids[o] != named(objLines, o) {
+						c.R.Add(Finding{Kind: "diff", What: "which pointers the object check looks at: model (first name per blob, then the exclusion) and implementation disagree", Case: clip(enc, 2500),
+							Impl: fmt.Sprintf("%s named=%v", o[:12], named(objLines, o)), Model: fmt.Sprintf("scanned=%v <= C13 scan %s", scannedOids[o], strings.Join(ents, ",")), Broken: "corr.C13.scan"})
+					}
+				}
+				c.R.Count("fsck.scan-model-compared")
+			}
+		}
+	}
 	// ---- a second damage of the same objects (a re-fetch that went wrong again): lfs/bad/<oid> already exists
 	if !dry && objectsOn && r.Chance(60) {
 		var again []string
